@@ -5,7 +5,7 @@ from vlib import core
 THEOREMS = ['closed_callers_enabled', 'cancelled_caller_enabled', 'caller_variant', 'caller_bound', 'connect_returns', 'connect_setup_returns',
             'connect_result', 'late_sends_fail', 'late_send_first_step', 'second_close', 'nothing_after_close', 'cancel_isolated',
             'cancelled_reply_unsolicited', 'no_panic', 'monitor_sound',
-            'chan_caps', 'deliver_never_blocks', 'deliver_after_cancel', 'errs_never_full',
+            'unrequested_close_response_fails', 'chan_caps', 'deliver_never_blocks', 'deliver_after_cancel', 'errs_never_full',
             # about the go2seq translation of the source, for every environment
             'src_send_closed', 'src_send_success_only_by_reply', 'src_read_loop_done', 'src_read_loop_failure']
 MODULES = ['LLRP.Proofs.SeqSend', 'LLRP.Proofs.SeqReadLoop', 'LLRP.Model.GoSeq', 'LLRP.Model.ClientLTS', 'LLRP.Model.ClientMon', 'LLRP.Proofs.ClientLTS', 'LLRP.Proofs.ClientLTS2', 'LLRP.Proofs.ClientLive', 'LLRP.Oracle.LTSim', 'LLRP.Oracle.C09']
